@@ -100,6 +100,9 @@ pub fn gen_text(r: &mut Rng, scale: u32) -> String {
     if r.chance(1, 4000) {
         return crate::bigtext::gen_big_text_scaled(r, scale > 1);
     }
+    if r.chance(1, 150) {
+        return crate::bigtext::gen_medium_text(r);
+    }
     let style = r.below(100);
     let mut text = String::new();
     if style < 25 {
